@@ -47,6 +47,9 @@ package config
 //@   at call dfsMerge#1 assert a0 == m && a2 == entry
 //@   at call mergeItems#1 assert a1 == fatherSectionMap[sec] && a2 == sectionMap[sec]
 //@   ensures err == nil ==> calls("readEntry") == 1
+// the merge target is the section map of the including file (fatherEntry), not of any other entry
+//@   loop 3
+//@     entry fatherEntry != "" && fatherSectionMap == m.entryToSectionMap[fatherEntry]
 
 // The (must) parameter is appended to what the user wrote: the rule's own current parameter list is the
 // list the append extends (so no user parameter such as mark is dropped), for rules and for the fallback.
